@@ -30,10 +30,22 @@ def clean_inputs(ir, rng, n, tries=None, size_cap=6, data_mode=None, par=False):
     """inputs on which the reference interpreter runs event-free"""
     out = []
     tries = tries or n * 4
+    # several precisions among the arguments: the casts between them are what is being compiled
+    precs = set()
+    for a in ir.args:
+        try:
+            if a.type.is_numeric():
+                precs.add(type(a.type.basetype()).__name__)
+        except Exception:
+            pass
+    mixed = len(precs) > 1
     for t in range(tries):
         if len(out) >= n:
             break
-        spec = gen_input(ir, rng, size_cap=size_cap, data_mode=data_mode or ("distinct" if t % 3 else "small"), boundary=(t < 3))
+        dm = data_mode or ("distinct" if t % 3 else "small")
+        if mixed and data_mode is None and t % 2 == 0:
+            dm = "fine"
+        spec = gen_input(ir, rng, size_cap=size_cap, data_mode=dm, boundary=(t < 3))
         if spec is None:
             continue
         vals, cfg = spec.materialise()
@@ -105,15 +117,24 @@ def check_c(proc, rng, workdir: Path, ninputs=5, openmp=False, sanitize=True, ke
             r.bad_input = len(cases)
             r.detail = out["stderr"][-2500:]
             return r
+        approx = None
         for k, ((spec, vals, cfg, res), co) in enumerate(zip(ins, cases)):
             if res.exact_ok:
                 r.exact_inputs += 1
             d = cbuild.compare_with_interp(ir, spec, co, vals, cfg, res.exact_ok)
             if d:
-                r.status = "mismatch" if res.exact_ok else "approx_mismatch"
-                r.diffs = d
-                r.bad_input = k
-                return r
+                if res.exact_ok:
+                    r.status = "mismatch"
+                    r.diffs = d
+                    r.bad_input = k
+                    return r
+                # an input outside the exact class never decides; the remaining inputs still count
+                if approx is None:
+                    approx = (d, k)
+        if approx is not None:
+            r.status = "approx_mismatch"
+            r.diffs, r.bad_input = approx
+            return r
         r.status = "ok"
         return r
     finally:
